@@ -186,9 +186,9 @@ def run(ctx):
         if not d.ok:
             ctx.violation('returned-file-is-rejected-by-the-strict-reader', det)
             continue
-        exp = judge.expected_objects(prog, r['outs'])
+        exp = judge.expected_at(prog, r['outs'], step)
         if exp:
-            judge.check_fidelity(ctx, d, exp[-1], det)
+            judge.check_fidelity(ctx, d, exp, det)
         judge.check_identity_refs(ctx, d, det, check_unique=False)
         hs = [(s['fh_id']['v'], s['fh_seq']['v']) for s, o in zip(prog, r['outs']) if s['op'] == 'lf' and o[0] == 'ok']
         judge.check_order(ctx, d, det, hs)
